@@ -74,14 +74,18 @@ func guard(f func() error) (err error, pan string, capped bool) {
 
 // ExecWriter runs a writer history against sink. The client behaves like a
 // real caller: it stops at the first API call that fails.
-func ExecWriter(spec *WriterSpec, sink *Sink) *WriteResult {
+func ExecWriter(spec *WriterSpec, sink *Sink) *WriteResult { return ExecWriterKind(spec, sink, "w") }
+
+// ExecWriterKind is ExecWriter with the destination presented as the given
+// sink kind ("w" or "wx").
+func ExecWriterKind(spec *WriterSpec, sink *Sink, kind string) *WriteResult {
 	sh := GetShape(spec.Shape)
 	res := &WriteResult{Sink: sink}
 	var w Writer
 	sink.CurAPI = "New"
 	err, pan, _ := guard(func() error {
 		var e error
-		w, e = sh.NewWriter(sink, spec.Page, spec.Codec)
+		w, e = sh.NewWriter(sink.AsWriter(kind), spec.Page, spec.Codec)
 		return e
 	})
 	res.APIs = append(res.APIs, mkAPI("New", err, pan))
